@@ -41,6 +41,16 @@ type Fault struct {
 	// MetaDown: after this request every metadata answer reports "leader not available" for all partitions until the
 	// scenario brings the metadata back (Scenario.MetaUpAtWave)
 	MetaDown bool `json:"metadown,omitempty"`
+	// Mix, when not empty, gives every partition of the request its own verdict: partition i (in (topic, partition)
+	// order) gets Mix[i mod len(Mix)]; Kind/Err/Only are then ignored.  This is how one response mixes e.g. a
+	// retriable error on one partition with a fatal error on another.  Connection drops cannot be mixed (whole request).
+	Mix []PartFault `json:"mix,omitempty"`
+}
+
+// PartFault is the verdict for one partition inside a mixed response.
+type PartFault struct {
+	Kind FaultKind `json:"kind"`
+	Err  int16     `json:"err,omitempty"`
 }
 
 // Appended is one record in a simulated partition log.
@@ -208,9 +218,15 @@ func (c *Cluster) produce(broker int, r *sarama.ProduceRequest) interface{} {
 		sel = f.Only % len(batches)
 	}
 	for i, b := range batches {
-		kind := f.Kind
+		kind, kerr := f.Kind, f.Err
 		if sel >= 0 && i != sel {
 			kind = Ok
+		}
+		if len(f.Mix) > 0 {
+			kind, kerr = f.Mix[i%len(f.Mix)].Kind, f.Mix[i%len(f.Mix)].Err
+			if kind == DropBefore || kind == DropAfter {
+				kind = NoBlock
+			}
 		}
 		key := tpKey(b.Topic, b.Partition)
 		app := func() int64 {
@@ -231,10 +247,10 @@ func (c *Cluster) produce(broker int, r *sarama.ProduceRequest) interface{} {
 			resp.AddTopicPartition(b.Topic, b.Partition, sarama.ErrNoError)
 			resp.Blocks[b.Topic][b.Partition].Offset = base
 		case Retriable, Fatal:
-			resp.AddTopicPartition(b.Topic, b.Partition, sarama.KError(f.Err))
+			resp.AddTopicPartition(b.Topic, b.Partition, sarama.KError(kerr))
 		case RetriableApp:
 			app()
-			resp.AddTopicPartition(b.Topic, b.Partition, sarama.KError(f.Err))
+			resp.AddTopicPartition(b.Topic, b.Partition, sarama.KError(kerr))
 		case Duplicate:
 			app() // "already appended, the earlier acknowledgement was lost": the log holds the records
 			resp.AddTopicPartition(b.Topic, b.Partition, sarama.ErrDuplicateSequenceNumber)
@@ -248,7 +264,7 @@ func (c *Cluster) produce(broker int, r *sarama.ProduceRequest) interface{} {
 			resp.AddTopicPartition(b.Topic, b.Partition, sarama.ErrNotLeaderForPartition)
 		}
 	}
-	if f.Kind == DropBefore || f.Kind == DropAfter {
+	if len(f.Mix) == 0 && (f.Kind == DropBefore || f.Kind == DropAfter) {
 		return sarama.VerifProdDrop{}
 	}
 	if sarama.VerifProdRequestAcks(r) == 0 {
